@@ -69,18 +69,47 @@ conc_build() {
   mkdir -p "$CONC/ckc-rs" "$CONC/sim/.cargo" || { CONC_SKIP_REASON="cannot create $CONC"; return 1; }
   rsync -a --delete --exclude target --exclude .git "$r"/ "$CONC/ckc-rs/" || { CONC_SKIP_REASON="rsync failed"; return 1; }
   find "$CONC/ckc-rs" -type f -exec touch {} +   # rsync keeps time stamps; cargo must see the copy as new
-  # core::sync holds nothing but `atomic`, so the whole path prefix can be redirected; this also covers
-  # `use core::sync::{atomic::…}` and `use core::sync as s;`
-  find "$CONC/ckc-rs/src" -name '*.rs' -print0 | xargs -0 sed -i -E 's/\bcore::sync\b/shuttle::sync/g; s/\bstd::sync::atomic\b/shuttle::sync::atomic/g; s/\b(core|std)::hint::spin_loop\b/shuttle::hint::spin_loop/g'
-  # anything the rewrite cannot put behind the scheduler makes the phase meaningless or unsound: skip it, and say so
+  # Two layers put the crate's atomics behind shuttle's scheduler.
+  # (1) A facade crate that is `core` with `sync::atomic` and `hint::spin_loop` replaced by shuttle's is
+  #     brought in under the name `core` (`extern crate corefacade as core;`), so that EVERY path form
+  #     resolves there: `core::sync::atomic::X`, `use core::{a, sync::atomic::{…}}`, `use core::sync as s`.
+  #     For that the shadow is an ordinary std crate (its own `no_std` attribute is dropped; shuttle
+  #     needs std anyway).
+  # (2) The textual rewrite stays for what the facade cannot reach: `std::sync::atomic` in test code.
+  mkdir -p "$CONC/corefacade/src"
+  cat > "$CONC/corefacade/Cargo.toml" <<'TOML'
+[package]
+name = "corefacade"
+version = "0.1.0"
+edition = "2021"
+publish = false
+[dependencies]
+shuttle = "0.9.3"
+TOML
+  cat > "$CONC/corefacade/src/lib.rs" <<'RS'
+//! `core`, except that `core::sync::atomic` and `core::hint::spin_loop` are shuttle's.
+#![no_std]
+pub use core::*;
+pub mod sync {
+    pub use shuttle::sync::atomic;
+}
+pub mod hint {
+    pub use core::hint::*;
+    pub use shuttle::hint::spin_loop;
+}
+RS
+  local lib="$CONC/ckc-rs/src/lib.rs"
+  sed -i '/^#!\[cfg_attr(not(test), no_std)\]/d; /^#!\[no_std\]/d' "$lib"
+  # the extern crate item goes after the last inner attribute of the crate root
+  local last; last="$(grep -n '^#!\[' "$lib" | tail -n1 | cut -d: -f1)"; last="${last:-0}"
+  if [ "$last" -gt 0 ]; then sed -i "${last}a extern crate corefacade as core;" "$lib"; else sed -i '1i extern crate corefacade as core;' "$lib"; fi
+  find "$CONC/ckc-rs/src" -name '*.rs' -print0 | xargs -0 sed -i -E 's/\bstd::sync::atomic\b/shuttle::sync::atomic/g; s/\bstd::hint::spin_loop\b/shuttle::hint::spin_loop/g'
+  # anything that cannot be put behind the scheduler makes the phase meaningless or unsound: skip it, and say so
   if grep -rnE 'cast::<Atomic|as \*(const|mut) Atomic|transmute[^;]*Atomic|Atomic[A-Za-z0-9]+::from_ptr|\.as_ptr\(\)' "$CONC/ckc-rs/src" >/dev/null 2>&1; then
-    CONC_SKIP_REASON="the source reaches atomics through raw pointers or casts, which the shuttle rewrite cannot model"; return 1
+    CONC_SKIP_REASON="the source reaches atomics through raw pointers or casts, which shuttle's atomics cannot model"; return 1
   fi
-  if grep -rnoE '([A-Za-z_][A-Za-z0-9_]*::)?sync::atomic' "$CONC/ckc-rs/src" | grep -vE ':shuttle::sync::atomic$' >/dev/null 2>&1; then
-    CONC_SKIP_REASON="some use of atomics is written in a path form the rewrite to shuttle::sync::atomic does not cover"; return 1
-  fi
-  # dependency added to a fresh copy of the manifest every time (the copy above restored the original)
-  sed -i 's/^\[dependencies\]$/[dependencies]\nshuttle = "0.9.3"/' "$CONC/ckc-rs/Cargo.toml"
+  # dependencies added to a fresh copy of the manifest every time (the copy above restored the original)
+  sed -i 's/^\[dependencies\]$/[dependencies]\nshuttle = "0.9.3"\ncorefacade = { path = "..\/corefacade" }/' "$CONC/ckc-rs/Cargo.toml"
   rsync -a --delete "$SIM/src/" "$CONC/sim/src/" || { CONC_SKIP_REASON="rsync failed"; return 1; }
   cat > "$CONC/sim/Cargo.toml" <<'TOML'
 [package]
